@@ -326,6 +326,10 @@ class ANSI (term):
 
         if isinstance(ch, bytes):
             ch = self._decode(ch)
+            if not ch:
+                # Only part of a character so far: the decoder holds it
+                # until the rest arrives.
+                return
 
         #\r and \n both produce a call to cr() and lf(), respectively.
         ch = ch[0]
